@@ -102,6 +102,7 @@ def rule_num_prescale(ctx: Ctx) -> None:
 
 
 def run(ctx: Ctx) -> None:
+    ctx.do(TR.rule_alt_paths)
     ctx.do(rule_param_write)
     ctx.do(TR.rule_alias_input)
     ctx.do(TR.rule_alias_grad)
